@@ -179,3 +179,82 @@ def describe():
         "oracles": ["O1 Op declaration", "O2 builder class files + generator exclusions",
                     "SPIR-V spec block-termination list (fixed in units/reflect.py)"],
     }
+
+
+# ---------------------------------------------------------------------------
+# witness search: the input domain is the 787 declared opcodes — swept completely on the real
+# crate (vreplay reflect-dump), compared with the spec sets the contracts are written over
+# ---------------------------------------------------------------------------
+
+def _spec_value(sets, pred, op):
+    s = lambda n: op in sets[n]
+    return {
+        "is_location_debug": s("spec_loc_debug"),
+        "is_nonlocation_debug": s("spec_nonloc_debug"),
+        "is_debug": s("spec_loc_debug") or s("spec_nonloc_debug"),
+        "is_annotation": s("class_annotation"),
+        "is_type": s("class_type"),
+        "is_constant": s("class_constant"),
+        "is_variable": op == "Variable",
+        "is_return": s("spec_return"),
+        "is_abort": s("spec_abort"),
+        "is_return_or_abort": s("spec_return") or s("spec_abort"),
+        "is_branch": s("spec_branch"),
+        "is_block_terminator": s("spec_branch") or s("spec_return") or s("spec_abort"),
+    }[pred]
+
+
+def sweep(ctx):
+    p, err = ctx["vreplay"](["reflect-dump"])
+    if p is None or p.returncode != 0:
+        return None, err or (p.stderr[-500:] if p else "")
+    sets = class_sets()
+    mism = []
+    n = 0
+    for line in p.stdout.splitlines():
+        parts = line.split()
+        num, name = int(parts[0]), parts[1]
+        n += 1
+        for kv in parts[2:]:
+            k, v = kv.split("=")
+            exp = _spec_value(sets, k, name)
+            if bool(int(v)) != exp:
+                mism.append({"predicate": k, "opcode": name, "number": num, "real": bool(int(v)), "spec": exp})
+    return (n, mism, sets), ""
+
+
+def witness(failure, ctx):
+    r, err = sweep(ctx)
+    if r is None:
+        return {"found": False, "error": err}
+    n, mism, sets = r
+    item = (failure.get("item") or "")
+    name = item.split("::")[-1]
+    if name in CONTRACTS:
+        mine = [m for m in mism if m["predicate"] == name]
+        return {"found": bool(mine), "exhaustive": True, "input": mine[:20], "swept_opcodes": n,
+                "how": "vreplay reflect-dump: real predicate on all declared opcodes vs spec class"}
+    m = re.match(r"builder_terminator_accepted_(\w+)", name)
+    if m:
+        op = m.group(1)
+        real = [x for x in mism if x["opcode"] == op and x["predicate"] == "is_block_terminator"]
+        # real predicate value for op:
+        p, _ = ctx["vreplay"](["reflect-dump"])
+        val = None
+        for line in p.stdout.splitlines():
+            parts = line.split()
+            if parts[1] == op:
+                val = "is_block_terminator=1" in parts
+        return {"found": val is False and op in sets["builder_terminator"], "exhaustive": True,
+                "input": {"opcode": op, "real_is_block_terminator": val,
+                          "builder_has_terminator_method": op in sets["builder_terminator"]},
+                "how": "Builder method for Op%s calls end_block (autogen_terminator.rs) but the real "
+                       "is_block_terminator(Op::%s) is false" % (op, op)}
+    m = re.match(r"terminator_has_builder_method_(\w+)", name)
+    if m:
+        op = m.group(1)
+        return {"found": op not in sets["builder_terminator"], "exhaustive": True,
+                "input": {"opcode": op, "builder_has_terminator_method": op in sets["builder_terminator"]}}
+    if name == "base_classes_disjoint":
+        return {"found": False, "exhaustive": False}
+    return None
